@@ -119,9 +119,22 @@ impl Response for Arbitrary<'_> {
     }
 }
 
+/// Writes string response data: the string enclosed in double quotes, with every
+/// double quote inside the string doubled (IEEE 488.2, 8.7.8).
+async fn write_quoted(f: &mut impl Write, mut s: &str) -> Result<(), Error> {
+    f.write_char('"').await?;
+    while let Some(position) = s.find('"') {
+        f.write_str(&s[..=position]).await?;
+        f.write_char('"').await?;
+        s = &s[position + 1..];
+    }
+    f.write_str(s).await?;
+    f.write_char('"').await
+}
+
 impl Response for &str {
     async fn write_response(&self, f: &mut impl Write) -> Result<(), Error> {
-        write!(f, "\"{self}\"").await
+        write_quoted(f, self).await
     }
 }
 
@@ -225,7 +238,7 @@ impl Response for f64 {
 
 impl<const N: usize> Response for heapless::String<N> {
     async fn write_response(&self, f: &mut impl Write) -> Result<(), Error> {
-        write!(f, "\"{}\"", self.as_str()).await
+        write_quoted(f, self.as_str()).await
     }
 }
 
@@ -244,7 +257,7 @@ impl<const N: usize, T: Response> Response for heapless::Vec<T, N> {
 #[cfg(feature = "std")]
 impl Response for std::string::String {
     async fn write_response(&self, f: &mut impl Write) -> Result<(), Error> {
-        write!(f, "\"{}\"", self.as_str()).await
+        write_quoted(f, self.as_str()).await
     }
 }
 
